@@ -46,7 +46,7 @@ def _method_body(g, as_value):
     Accepted shapes of `return`: none; one trailing return; bare returns directly inside the trailing loop of the method
     (they leave the loop, after which the method ends -> `break`)."""
     fn = g.node
-    if fn.args.vararg or fn.args.kwarg:
+    if fn.args.vararg:
         raise _Bail("varargs")
     if [d for d in fn.decorator_list]:
         raise _Bail("decorated method")
@@ -106,9 +106,15 @@ def _bind(g, call, self_expr, loc):
     if len(call.args) > len(rest):
         raise _Bail("too many arguments")
     bound = dict(zip(rest, call.args))
+    extra = []
     for k in call.keywords:
-        if k.arg in bound or (k.arg not in rest and k.arg not in kwonly):
+        if k.arg in bound:
             raise _Bail("bad keyword")
+        if k.arg not in rest and k.arg not in kwonly:
+            if a.kwarg is None:
+                raise _Bail("bad keyword")
+            extra.append(k)          # collected by **kwargs
+            continue
         bound[k.arg] = k.value
     defaults = dict(zip(params[len(params) - len(a.defaults):], a.defaults))
     for x, d in zip(a.kwonlyargs, a.kw_defaults):
@@ -122,6 +128,12 @@ def _bind(g, call, self_expr, loc):
             out.append((p, defaults[p]))
         else:
             raise _Bail("missing argument %s" % p)
+    if a.kwarg is not None:
+        # **kwargs of the method: the dictionary of the keyword arguments it was not declared to take
+        d = ast.Dict(keys=[ast.Constant(value=k.arg) for k in extra], values=[k.value for k in extra])
+        ast.copy_location(d, loc)
+        ast.fix_missing_locations(d)
+        out.append((a.kwarg.arg, d))
     return out
 
 
@@ -219,7 +231,7 @@ def candidates(func, class_methods):
                     if not ((isinstance(ppp, ast.Expr) and ppp.value is pp) or (isinstance(ppp, ast.Assign) and ppp.value is pp and len(ppp.targets) == 1)):
                         good = False
                         break
-                elif p.attr in ms:
+                elif p.attr in ms and not any((dotted(d) or "").split(".")[-1] == "property" for d in ms[p.attr].node.decorator_list):
                     good = False              # a bound method taken as a value
                     break
         if good:
@@ -256,6 +268,8 @@ def scalarize(project, func, class_methods, only=None, depth=4):
         counter[0] += 1
         pre = "_%s_%d__" % (mname.strip("_") or "m", counter[0])
         mapping = {nm: pre + nm for nm in _local_names(g.node)}
+        if g.node.args.kwarg is not None:
+            mapping[g.node.args.kwarg.arg] = pre + g.node.args.kwarg.arg
         mapping["self"] = v
         new = []
         for p, a in _bind(g, call, v, loc):
@@ -370,6 +384,30 @@ def scalarize(project, func, class_methods, only=None, depth=4):
                 and n.func.attr in cands[n.func.value.id][2]:
             return func
 
+    # read-only properties of the class: `v.prop` is the property's return expression (with self = v)
+    def prop_expr(v, attr, depth_=0):
+        g = cands[v][2].get(attr)
+        if g is None or depth_ > 3 or not any((dotted(d) or "").split(".")[-1] == "property" for d in g.node.decorator_list):
+            return None
+        body = _strip_doc(g.node.body)
+        if len(body) != 1 or not isinstance(body[0], ast.Return) or body[0].value is None:
+            return None
+        return _Renamer({"self": v}).visit(copy.deepcopy(body[0].value))
+
+    class Props(ast.NodeTransformer):
+        def visit_Attribute(self, n):
+            self.generic_visit(n)
+            if isinstance(n.value, ast.Name) and n.value.id in cands and isinstance(n.ctx, ast.Load):
+                e = prop_expr(n.value.id, n.attr)
+                if e is not None:
+                    return ast.copy_location(Props().visit(e), n)
+            return n
+
+        def visit_FunctionDef(self, n):
+            return n
+        visit_Lambda = visit_FunctionDef
+    new_node.body = [Props().visit(s) for s in new_node.body]
+
     class Fields(ast.NodeTransformer):
         def visit_Attribute(self, n):
             self.generic_visit(n)
@@ -456,9 +494,27 @@ def _propagate(fnode):
                         h.body = drop(h.body) or [ast.copy_location(ast.Pass(), h)]
             out.append(s)
         return out
+    # names bound once to `type(<something>)`: never None
+    nonnull = set()
+    for n_ in own_nodes(fnode):
+        if isinstance(n_, ast.Assign) and len(n_.targets) == 1 and isinstance(n_.targets[0], ast.Name) and stores.get(n_.targets[0].id) == 1 \
+                and isinstance(n_.value, ast.Call) and isinstance(n_.value.func, ast.Name) and n_.value.func.id == "type" and len(n_.value.args) == 1:
+            nonnull.add(n_.targets[0].id)
+
     def fold_const_ifs(stmts):
         out = []
         for s in stmts:
+            if isinstance(s, ast.If) and isinstance(s.test, ast.Compare) and len(s.test.ops) == 1 and isinstance(s.test.left, ast.Name) and s.test.left.id in nonnull \
+                    and isinstance(s.test.comparators[0], ast.Constant) and s.test.comparators[0].value is None and isinstance(s.test.ops[0], (ast.Is, ast.IsNot, ast.Eq, ast.NotEq)):
+                truth = isinstance(s.test.ops[0], (ast.IsNot, ast.NotEq))
+                out.extend(fold_const_ifs(s.body if truth else s.orelse))
+                continue
+            if isinstance(s, ast.If) and isinstance(s.test, ast.Compare) and len(s.test.ops) == 1 and isinstance(s.test.left, ast.Constant) \
+                    and isinstance(s.test.comparators[0], ast.Constant) and isinstance(s.test.ops[0], (ast.Is, ast.IsNot, ast.Eq, ast.NotEq)):
+                same = s.test.left.value is s.test.comparators[0].value or (s.test.left.value == s.test.comparators[0].value and type(s.test.left.value) is type(s.test.comparators[0].value))
+                truth = same if isinstance(s.test.ops[0], (ast.Is, ast.Eq)) else not same
+                out.extend(fold_const_ifs(s.body if truth else s.orelse))
+                continue
             if isinstance(s, ast.If) and isinstance(s.test, ast.Constant) and isinstance(s.test.value, (bool, type(None))):
                 out.extend(fold_const_ifs(s.body if s.test.value else s.orelse))
                 continue
@@ -807,3 +863,49 @@ def inline_local_closures(func):
     clone.inlined = counter[0]
     clone.extern = dict(getattr(func, "extern", {}) or {})
     return clone
+
+
+def cm_class_as_generator(project, func, class_methods):
+    """A method whose last statement is `return Cls(args)` with Cls a project class that has __enter__ and __exit__ (a hand-written
+    context manager replacing a @contextmanager generator) as the generator it replaces:
+
+        <statements before the return>; cm = Cls(args); v = cm.__enter__()
+        try: yield v
+        except BaseException as e: cm.__exit__(type(e), e, None); raise
+        else: cm.__exit__(None, None, None)
+
+    with the object taken apart (see scalarize).  None when the function does not have that shape."""
+    body = list(func.node.body)
+    if not body or not isinstance(body[-1], ast.Return) or not isinstance(body[-1].value, ast.Call):
+        return None
+    if any(isinstance(n, (ast.Yield, ast.YieldFrom)) for n in own_nodes(func.node)):
+        return None
+    call = body[-1].value
+    ms = class_methods(call.func)
+    if ms is None or "__enter__" not in ms or "__exit__" not in ms:
+        return None
+    src = """
+_cm = None
+_cm_v = _cm.__enter__()
+try:
+    yield _cm_v
+except BaseException as _cm_e:
+    _cm.__exit__(type(_cm_e), _cm_e, None)
+    raise
+else:
+    _cm.__exit__(None, None, None)
+"""
+    tmpl = ast.parse(src).body
+    tmpl[0].value = copy.deepcopy(call)
+    for st in tmpl:
+        for x in ast.walk(st):
+            ast.copy_location(x, body[-1])
+    new_node = copy.copy(func.node)
+    new_node.body = body[:-1] + tmpl
+    ast.fix_missing_locations(new_node)
+    clone = Func(func.qual, new_node, func.module, func.cls, func.parent)
+    clone.extern = dict(getattr(func, "extern", {}) or {})
+    out = scalarize(project, clone, class_methods)
+    if out is clone:
+        return None
+    return out
